@@ -107,6 +107,7 @@ package wamp
 
 //@ iface (Message) MessageType
 //@   pure
+//@   dispatch
 
 //@ func (s *Session) HasFeature
 //@   requires s != nil
@@ -148,3 +149,11 @@ package wamp
 //@   ensures [uri]    is(v, URI) ==> result1 && result0 == v.(URI)
 //@   ensures [other]  !is(v, string) && !is(v, URI) && !is(v, []byte) ==> !result1
 //@   ensures [fail-empty] !result1 ==> result0 == ""
+
+//@ func (s *Session) Goodbye
+//@   requires s != nil
+//@   pure
+
+//@ func (s *Session) RecvDone
+//@   requires s != nil
+//@   modifies s.done, ghost closed
